@@ -6,6 +6,7 @@ package sim
 // marks the output as unspecified instead of picking one behaviour.
 
 import (
+	"fmt"
 	"os"
 	"path"
 	"sort"
@@ -657,4 +658,60 @@ func (r *RefFS) HasOpenHandleUnder(p string) bool {
 		}
 	}
 	return false
+}
+
+// Clone returns a deep copy (handles keep pointing at their, possibly
+// detached, nodes).
+func (r *RefFS) Clone() *RefFS {
+	memo := map[*rnode]*rnode{}
+	var cp func(n *rnode) *rnode
+	cp = func(n *rnode) *rnode {
+		if n == nil {
+			return nil
+		}
+		if m, ok := memo[n]; ok {
+			return m
+		}
+		m := *n
+		m.data = append([]byte(nil), n.data...)
+		memo[n] = &m
+		if n.children != nil {
+			m.children = make(map[string]*rnode, len(n.children))
+			for k, c := range n.children {
+				m.children[k] = cp(c)
+			}
+		}
+		return &m
+	}
+	out := &RefFS{root: cp(r.root), Now: r.Now, UID: r.UID, GID: r.GID, H: map[int]*rhandle{}}
+	for id, h := range r.H {
+		nh := *h
+		nh.n = cp(h.n)
+		nh.buf = append([]byte(nil), h.buf...)
+		out.H[id] = &nh
+	}
+	return out
+}
+
+// Key is a canonical rendering of the whole model state.
+func (r *RefFS) Key() string {
+	t, m := r.Tree()
+	var sb strings.Builder
+	sb.WriteString(t.String())
+	ks := make([]string, 0, len(m))
+	for k, v := range m {
+		ks = append(ks, fmt.Sprintf("%s:%v%v", k, v.Mtime, v.Content))
+	}
+	sort.Strings(ks)
+	sb.WriteString(strings.Join(ks, ","))
+	ids := make([]int, 0, len(r.H))
+	for id := range r.H {
+		ids = append(ids, id)
+	}
+	sort.Ints(ids)
+	for _, id := range ids {
+		h := r.H[id]
+		fmt.Fprintf(&sb, "|h%d %s pos=%d/%v r%v w%v a%v buf=%v:%s unk=%v kind=%s", id, h.path, h.pos, h.posOK, h.read, h.write, h.append, h.hasBuf, sumOf(h.buf), h.unknown, h.n.kind)
+	}
+	return sb.String()
 }
